@@ -283,6 +283,61 @@ fn orch_stale_helper(out: &mut Outcome) -> Result<(), String> {
     follow_up(map, what)
 }
 
+/// Growth ladder: one key at a time from the smallest tables upwards; after every insert the
+/// table is unchanged or exactly doubled, the control words are idle and the next threshold is
+/// three quarters of the (new) length.
+fn ladder(start: u8, mode: u8, max_len: usize, out: &mut Outcome) -> Result<(), String> {
+    let map: UMap = match start {
+        0 => {
+            // reserve(0) on a never-used map creates a 1-bin table
+            let m: UMap = HashMap::with_hasher(HB::new(mode));
+            let g = m.guard();
+            m.reserve(0, &g);
+            drop(g);
+            m
+        }
+        1 => HashMap::with_capacity_and_hasher(1, HB::new(mode)),
+        _ => HashMap::with_hasher(HB::new(mode)),
+    };
+    hook::events_enable(true);
+    let _ = hook::events_take();
+    let g = map.guard();
+    let mut len = map.verif_table_len(&g);
+    let mut k = 0u64;
+    let what = format!("growth ladder (start {}, hasher {})", ["1 bin", "2 bins", "lazy 16 bins"][start as usize], mode_name(mode));
+    loop {
+        map.insert(k, k, &g);
+        k += 1;
+        let l = map.verif_table_len(&g);
+        let (sc, _, cnt) = map.verif_control();
+        if len != 0 && l != len {
+            if l != 2 * len && !(len < 64 && l > len && l.is_power_of_two() && mode != IDENTITY) {
+                hook::events_enable(false);
+                return Err(format!("{what}: the {len}-bin table was replaced by one of {l} bins at {cnt} entries"));
+            }
+            out.add("ladder_growths", 1);
+        }
+        if l > 0 && sc != (l - l / 4) as isize {
+            hook::events_enable(false);
+            return Err(format!("{what}: with {cnt} entries in a {l}-bin table (grown from {len}) the next growth threshold is {sc}, expected three quarters of the length = {}", l - l / 4));
+        }
+        if l > 0 && mode == IDENTITY && len == l && cnt as usize >= l - l / 4 {
+            hook::events_enable(false);
+            return Err(format!("{what}: {cnt} entries in a {l}-bin table and no growth (threshold {})", l - l / 4));
+        }
+        len = l;
+        if len >= max_len {
+            break;
+        }
+    }
+    drop(g);
+    hook::events_enable(false);
+    let ev = hook::events_take();
+    let st = quiescent_check(&map, &ev, &what)?;
+    out.add("ladder_generations", st.generations);
+    follow_up(map, &what)
+}
+
 pub fn draw(rng: &mut Rng) -> RoundCfg {
     let mut cfg = super::c01::draw(rng, true);
     cfg.set_facade = false;
@@ -327,6 +382,20 @@ pub fn run(ctx: &Ctx) -> Outcome {
         if let Err(e) = orch_stale_helper(&mut out) {
             out.violate("c10/orch/stale-helper", e, Json::obj().with("check", Json::s("c10")).with("part", Json::s("stale-helper")));
             return out;
+        }
+    }
+    // growth ladders from the smallest tables
+    if ctx.shard == 1 % ctx.shards {
+        for start in 0..3u8 {
+            for mode in [IDENTITY, UNIFORM] {
+                out.evaluations += 1;
+                out.add("ladder_runs", 1);
+                out.distinct.insert(fnv(fnv(FNV_OFFSET ^ 0x1adde5, start as u64), mode as u64));
+                if let Err(e) = guarded(|| ladder(start, mode, ctx.q(4096, 1 << 17), &mut out)).unwrap_or_else(|p| Err(p)) {
+                    out.violate("c10/ladder", e, Json::obj().with("check", Json::s("c10")).with("part", Json::s("ladder")).with("start", Json::u(start)).with("hasher", Json::s(mode_name(mode))));
+                    return out;
+                }
+            }
         }
     }
     // orchestrated multi-helper resizes
